@@ -6,6 +6,24 @@ ALL = ["C%02d" % i for i in range(1, 20)]
 
 # id -> (level category, technique, level text, level note, design ref)
 CHECKS = {
+ "C06": ("exploration", "runtime monitor: differential oracle (chunked vs all-at-once I/O) at the stream API and lock-step bit-vector model over chunked sources at the bitstream API",
+         "The same valid streams are decoded through io.Readers delivering short reads (fixed 1..262145-byte chunks, random sizes, pipe-like, data+EOF together), with arbitrary Read buffer length sequences (incl. 0/1), and the same data is written with arbitrary Write partitions; results must equal the all-at-once run byte for byte. 4 000 (quick) bit-level programs are replayed on DefaultInputBitStream over chunked sources against the bit-vector model. Exploration over sampled partitions.",
+         "Sources obey the io.Reader contract and never return (0, nil).", "DESIGN.md §3 C06"),
+ "C08": ("fault_enumeration", "runtime monitor: fault-injecting io.WriteCloser / io.ReadCloser, fault index enumerated exhaustively over the calls of the fault-free run",
+         "For each recipe x job count the fault-free run counts the sink Write / Close and source Read calls; the fault is then injected at every call index k = 1..N in modes transient, transient+retry-Close, sticky, partial write, error-with-data. Oracle: an injected fault surfaces as a non-nil error of some call, no panic escapes, Close == nil implies the sink decodes to exactly the accepted bytes, Read output is always a prefix of the original and clean EOF implies completeness. Exhaustive over k for the listed recipes, which include streams whose end marker lands exactly on the bitstream flush threshold.",
+         "A source failure on a read-ahead issued after every byte was delivered (complete, correct data then EOF) is counted but not treated as a swallowed error.", "DESIGN.md §3 C08"),
+ "C09": ("exploration", "runtime monitor: result oracle over every cut position of small valid streams (exhaustive over cuts) and boundary-focused cuts of large ones",
+         "17 small streams (empty input, sub-16-byte blocks, multi-block, checksum 0/32/64, headerless, hinted) are cut at every byte position 0..len-1 and decoded with jobs 1 and 3 (about 135 000 decodes); 3 large streams are cut around every block boundary computed by the independent container parser and at random positions. Reading must end with an error, never clean EOF.",
+         "Exhaustive only over the cut positions of the listed streams; the set of streams is a sample.", "DESIGN.md §3 C09"),
+ "C11": ("exploration", "runtime monitor: slice oracle over all block ranges of small streams, with the payloads of skipped blocks corrupted",
+         "For streams of 1..12 blocks (partial last block, with/without hint, 5 codec pairs) every range 1 <= from <= to <= nb+3, from-only and to-only, is decoded with decoder jobs {1,2,3,4,8,64}; in half of the cases every block outside the range has its payload and stored checksum damaged (length prefix intact), so decoding a skipped block would surface. Oracle: bytes == orig[(from-1)*B : min((to-1)*B, len)], no error.",
+         "Exhaustive over ranges for the listed streams only.", "DESIGN.md §3 C11"),
+ "C15": ("exploration", "runtime monitor: exhaustive name<->type round trip + byte-equality of streams written with spelling variants",
+         "GetName(GetType(x)) is compared with the canonical name for all chains of length <= 3 over the 19 transform names and the 9 entropy names in 4 spellings (exhaustive, ~30 000 lookups); every spelling variant of every single codec, of variant-bearing pairs and of random chains <= 8 with NONE fillers must give the byte-identical stream as the upper-case spelling and round-trip through NewReader / NewHeaderlessReader on data that exercises the variant-specific code.",
+         "Stream equality is judged against the canonical spelling on the same tree (the property is an equality of two runs).", "DESIGN.md §3 C15"),
+ "C17": ("exploration", "runtime monitor: reference state machine stepped alongside random Writer/Reader call programs",
+         "3 000 (quick) / 40 000 (thorough) random call programs (Write/Read with lengths 0, 1, B-1, B, B+1, jobs*B ..., Close repeated at any point, GetWritten/GetRead, listeners) are executed step by step against a 40-line model: Close idempotent, calls after Close fail without side effects, counters monotone, GetWritten == sink bytes after Close, final stream decodes to exactly the accepted bytes, empty Writer gives a valid empty stream.",
+         "Healthy in-memory sink/source only (faults are C08).", "DESIGN.md §3 C17"),
  "C01": ("exploration", "runtime monitor: round-trip oracle at the stream API in isolated child processes + independent container parser + recovered-panic and NormalizeFrequencies hooks",
          "About 2 500 (quick) / 40 000 (thorough) generated (configuration, data shape, size, hint mode, Write partition, decoder job count) cases are pushed through the real Writer and Reader in child processes; the oracle is bytes-in == bytes-out followed by io.EOF, no error after construction, and an independent parse of the produced container (block count, header fields, end marker). The recover hook names the faulting function of any swallowed panic; the normalize hook checks every histogram the codecs produce in situ. Exploration: the input/config space is sampled with a covering design, not enumerated.",
          "Trusts harness/container (independent parser), harness/gen, and the hook files v2/io/verif_on.go, v2/entropy/verif_on.go. Largest block run: 4 MiB+16 quick, 160 MiB thorough; 1 GiB blocks are not run.", "DESIGN.md §3 C01"),
